@@ -6,16 +6,18 @@
       9 breaker.CURRENT_RULES  10 breaker.BREAKER_RULES
      11 isolation.RULE_MAP     12 isolation.CURRENT_RULES
      13 system.RULE_MAP        14 system.CURRENT_RULES
-     15 stat.RESOURCE_NODE_MAP *)
+     15 stat.RESOURCE_NODE_MAP
+     16 the state mutex of a breaker (all breakers' state mutexes are one lock here: no code path holds two) *)
 From SV Require Import Model.Base Model.Locks.
 
-(** rule maps as given < controller / breaker maps < (listener list, taken when a breaker is dropped under the
-    breaker map) < valid-rule maps (a listener may read them) < generator maps < node map *)
+(** rule maps as given < controller / breaker maps < breaker state (read when a breaker is dropped under the breaker
+    map; held by every transition while it tells the listeners) < listener list < valid-rule maps (a listener may read
+    them) < generator maps < node map *)
 Definition lock_rank (l : nat) : nat :=
   match l with
   | 2 => 10 | 1 => 11 | 0 => 12
   | 5 => 20 | 4 => 21 | 3 => 22
-  | 9 => 30 | 8 => 31 | 7 => 32 | 10 => 33 | 6 => 34
+  | 9 => 30 | 8 => 31 | 16 => 32 | 7 => 33 | 10 => 34 | 6 => 35
   | 12 => 40 | 11 => 41
   | 14 => 50 | 13 => 51
   | 15 => 90
@@ -28,6 +30,8 @@ Definition known_contexts : list (nat * list nat) :=
     (5, []); (4, [5]); (3, [4; 5]); (4, []); (3, []);
     (9, []); (8, [9]); (10, [8; 9]); (6, [8; 9]); (6, [8; 9; 10]); (8, []); (10, []); (6, []); (7, []);
     (10, [7; 8]); (10, [7; 8; 9]);      (* a listener reads the rules while a breaker is being dropped *)
+    (16, []); (7, [16]);                (* a transition, or the exit hook of a rejected probe: state, then the listeners *)
+    (16, [8]); (16, [8; 9]); (7, [8]); (7, [8; 9]);   (* a breaker dropped under the breaker map: state read and released, then the listeners *)
     (12, []); (11, [12]); (11, []);
     (14, []); (13, [14]); (13, []);
     (15, []) ]%nat.
